@@ -22,21 +22,29 @@
                                                           the future is computed by the executor model (Exec.v) from the
                                                           kind of the future; tmo 1: the environment let 16 s pass with
                                                           this future in flight (the oracle demands that it is gone)
-         | 14 q uctag qtag qn rk t0..t31 | 15 q qtag qn rk ngiven p* | 16 rk | 17 p addr     (mode 1: command with
-                                                          its 256-bit target key, put_record_to_peers with the GIVEN
-                                                          peers, store_record, add_known_peer)
-         | 19 id rtag [rk] [t0..t31 | valid]              (mode 1) the read future of inbound substream id delivers a
-                                                          request: rtag 0 FIND_NODE rk target, 1 PUT_VALUE rk,
-                                                          2 GET_VALUE rk target, 3 GET_PROVIDERS rk target, 4 ADD_PROVIDER valid
-         | 20 rk | 21 q rk t0..t31                        (mode 1) stop_providing; a refresh timer of the store fires
+         | 14 q uctag qtag qn rk len expc t0..t31        (mode 1) command with its 256-bit target key; uctag 0 find_node,
+                                                          1 put_record (value length len, expiry expc: 0 none, n + 1 =
+                                                          n ticks from now), 2 start_providing, 3 get_record, 4 get_providers
+         | 15 q qtag qn rk len pub expc upd ngiven p*     (mode 1) put_record_to_peers with the GIVEN peers; publisher
+                                                          code pub, update_local_store upd
+         | 16 rk len pub expc | 17 p addr                 (mode 1) store_record, add_known_peer
+         | 19 id rtag ...                                 (mode 1) the read future of inbound substream id delivers a
+                                                          request: rtag 0 FIND_NODE rk target, 1 PUT_VALUE rk len pub ttl,
+                                                          2 GET_VALUE rk target, 3 GET_PROVIDERS rk target,
+                                                          4 ADD_PROVIDER rk nprov (peer naddr decodes)* target
+         | 20 rk t0..t31 | 21 q rk wait t0..t31 | 22 d    (mode 1) stop_providing; `wait` ticks pass and a completed refresh
+                                                          future of key rk is taken; d ticks pass (one tick = 10 s; the
+                                                          store's clock, its refresh futures, record and provider expiry)
          mode bits: 0 composed, 1 zero peer timeout, 2 RoutingTableUpdateMode::Manual,
                     3 IncomingRecordValidationMode::Manual
    msg   = 0 npeers p* | 1 | 2 haskey recflag recid npeers p* | 3 valid
          | 4 haskey nprov (peer naddr addr* )* npeers p* | 5
    trace = 1 group*     one group per event of `select!` (the event, then the drain that follows)
            (2 ... on a bounded event channel, 3 ... in composed mode: the group is followed by the
-            non-empty k-buckets, the stored record keys, the provided keys, the number of armed refresh
-            timers and the replies written to inbound substreams, see dump_w / flush_c)
+            non-empty k-buckets, the records of the store (key, value code, length, expiry relative to the
+            clock), the provider records per key in stored order (peer, addresses, expiry), local_providers
+            with the stored quorum, the number of refresh futures, and the replies written to inbound
+            substreams (record attached, closer peers, providers), see dump_w / flush_c)
    group = ok nouts out* dump
    out   = 0 q n p* | 1 q | 2 q | 3 q | 4 q n (peer naddr addr* )* | 5 q | 6 q p r | 7 n p* | 8 | 9 | 10 q n p*
    dump  = ndials (p nacts (kind q)* )*  npeers (p nacts (sid kind q)* )*  nsubs (sid p)*  nfuts
@@ -117,7 +125,7 @@ Definition p_ev (tag : N) : parser ev :=
          | 1 => pret (ECmd q (CPutRecord qr) dists seeds)
          | 2 => pret (ECmd q (CStartProviding qr) dists seeds)
          | 3 => pret (ECmd q (CGetRecord qr local) dists seeds)
-         | 4 => pret (ECmd q CGetProviders dists seeds)
+         | 4 => pret (ECmd q (CGetProviders []) dists seeds)
          | 5 => pret (ECmd q (CRefresh qr) dists seeds)
          | _ => pfail
          end
@@ -160,14 +168,18 @@ Definition byte_bits (b : N) : list bool :=
 Definition p_key : parser key :=
   let* bytes := prep 32 pN in pret (flat_map byte_bits bytes).
 
+Definition dec_exp (c : N) : option N := if c =? 0 then None else Some (c - 1).
+Definition p_prov3 : parser (N * N * N) :=
+  let* p := pN in let* na := pN in let* v := pN in pret (p, na, v).
+
 Definition p_inreq : parser inreq :=
   let* tag := pN in
   match tag with
   | 0 => let* _ := pN in let* t := p_key in pret (IFindNode t)
-  | 1 => let* rk := pN in pret (IPutValue rk)
+  | 1 => let* rk := pN in let* len := pN in let* pb := pN in let* ttl := pN in pret (IPutValue rk len pb ttl)
   | 2 => let* rk := pN in let* t := p_key in pret (IGetValue rk t)
-  | 3 => let* _ := pN in let* t := p_key in pret (IGetProviders t)
-  | 4 => let* v := pBool in pret (IAddProvider v)
+  | 3 => let* rk := pN in let* t := p_key in pret (IGetProviders rk t)
+  | 4 => let* rk := pN in let* pv := plist p_prov3 in let* t := p_key in pret (IAddProvider rk pv t)
   | _ => pfail
   end.
 
@@ -176,22 +188,26 @@ Definition p_uev : parser guev :=
   match tag with
   | 12 => let* f := p_futb in pret (GUFut f)
   | 19 => let* id := pN in let* rq := p_inreq in pret (GU (UInReq id rq))
-  | 20 => let* rk := pN in pret (GU (UStopProviding rk))
-  | 21 => let* q := pN in let* rk := pN in let* t := p_key in pret (GU (UFire q rk t))
+  | 20 => let* rk := pN in let* t := p_key in pret (GU (UStopProviding rk t))
+  | 21 => let* q := pN in let* rk := pN in let* wt := pN in let* t := p_key in pret (GU (UFire q rk wt t))
+  | 22 => let* d := pN in pret (GU (UAge d))
   | 14 => let* q := pN in let* uc := pN in let* qtag := pN in let* qn := pN in let* rk := pN in
+          let* len := pN in let* ec := pN in
           let* target := p_key in
           let qr := quorum_of qtag qn in
           match uc with
           | 0 => pret (GU (UCmd q UCFind target))
-          | 1 => pret (GU (UCmd q (UCPut qr rk) target))
+          | 1 => pret (GU (UCmd q (UCPut qr rk len (dec_exp ec)) target))
           | 2 => pret (GU (UCmd q (UCProv qr rk) target))
           | 3 => pret (GU (UCmd q (UCGet qr rk) target))
-          | 4 => pret (GU (UCmd q UCGetProv target))
+          | 4 => pret (GU (UCmd q (UCGetProv rk) target))
           | _ => pfail
           end
-  | 15 => let* q := pN in let* qtag := pN in let* qn := pN in let* rk := pN in let* ps := plist pN in
-          pret (GU (UPutToPeers q (quorum_of qtag qn) rk ps))
-  | 16 => let* rk := pN in pret (GU (UStoreRecord rk))
+  | 15 => let* q := pN in let* qtag := pN in let* qn := pN in let* rk := pN in
+          let* len := pN in let* pb := pN in let* ec := pN in let* upd := pBool in let* ps := plist pN in
+          pret (GU (UPutToPeers q (quorum_of qtag qn) rk len pb (dec_exp ec) upd ps))
+  | 16 => let* rk := pN in let* len := pN in let* pb := pN in let* ec := pN in
+          pret (GU (UStoreRecord rk len pb (dec_exp ec)))
   | 17 => let* p := pN in let* a := pBool in pret (GU (UAddKnownPeer p a))
   | _ => let* e := p_ev tag in pret (GU (UEv e))
   end.
@@ -335,17 +351,36 @@ Fixpoint rt_rows (keys : list (N * key)) (i : nat) (t : table) : list (list N) :
              :: rt_rows keys (S i) r
       end
   end.
+(* expiry relative to the clock: [2;0] none, [0; now - t] expired, [1; t - now] fresh *)
+Definition enc_rel (now : N) (e : option N) : list N :=
+  match e with
+  | None => [2; 0]
+  | Some t => if t <=? now then [0; now - t] else [1; t - now]
+  end.
+Definition enc_srec (now : N) (r : V.C17.Model.record) : list N :=
+  [V.C17.Model.r_key r; V.C17.Model.r_val r; V.C17.Model.r_len r] ++ enc_rel now (V.C17.Model.r_exp r).
+Definition enc_sprov (wc : wcfg) (now : N) (p : V.C17.Model.prov) : list N :=
+  [peer_of_pid wc (V.C17.Model.p_id p); V.C17.Model.p_naddr p] ++ enc_rel now (Some (V.C17.Model.p_exp p)).
+Definition dump_store (wc : wcfg) (w : world) : list N :=
+  let s := w_store w in
+  let now := w_clock w in
+  enc_list (enc_srec now) (sort_by V.C17.Model.r_key (V.C17.Model.recs s)) ++
+  enc_list (fun kp : N * list V.C17.Model.prov => fst kp :: enc_list (enc_sprov wc now) (snd kp))
+           (sort_key (V.C17.Model.pkeys s)) ++
+  enc_list (fun x : N * N => [fst x; snd x]) (sort_key (w_quorum w)) ++
+  [N.of_nat (length (w_timers w))].
+
 Definition dump_w (wc : wcfg) (w : world) : list N :=
-  dump (w_st w) ++ enc_list (fun r : list N => r) (rt_rows (wc_keys wc) 0 (w_rt w)) ++
-  enc_ns (sortN (map V.C17.Model.r_key (V.C17.Model.recs (w_store w)))) ++
-  enc_ns (sortN (map fst (w_prov w))) ++ [N.of_nat (length (w_timers w))].
+  dump (w_st w) ++ enc_list (fun r : list N => r) (rt_rows (wc_keys wc) 0 (w_rt w)) ++ dump_store wc w.
 
-Definition enc_reply (r : bool * list N) : list N := b2n (fst r) :: enc_ns (snd r).
+Definition enc_reply (r : bool * list N * list (N * N)) : list N :=
+  b2n (fst (fst r)) :: enc_ns (snd (fst r)) ++ enc_list (fun x : N * N => [fst x; snd x]) (snd r).
 
-(* composed group = ok, nouts, the outs, dump, rtdump, storedump, provkeys, ntimers, nreplies, then per
-   reply: found npeers peers (the replies the node wrote to inbound substreams while handling the
-   event of the group) *)
-Definition flush_c (wc : wcfg) (w : world) (ok : bool) (outs : list out) (reps : list (bool * list N)) : list N :=
+(* composed group = ok, nouts, the outs, dump, rtdump, storedump, nreplies, then per reply: found, the closer
+   peers, the providers (the replies the node wrote to inbound substreams while handling the event of the
+   group) *)
+Definition flush_c (wc : wcfg) (w : world) (ok : bool) (outs : list out)
+           (reps : list (bool * list N * list (N * N))) : list N :=
   b2n (ok && quiescent (w_st w)) :: enc_list enc_out outs ++ dump_w wc w ++ enc_list enc_reply reps.
 
 Definition uev_serve (u : uev) : bool := match u with UEv e => is_serve e | _ => false end.
@@ -353,28 +388,47 @@ Definition uev_tick (u : uev) : bool := match u with UEv e => is_tick e | _ => f
 
 Definition opt_list {A} (o : option A) : list A := match o with Some x => [x] | None => [] end.
 
+(* the executor timeouts in ticks of the store's clock: the environment lets TMO_TICKS pass when it plays
+   a blocking or silent substream *)
+Definition TMO_TICKS : N := 2.
+
+(* time passing inside an event of the environment (no event of `select!`, no group) *)
+Definition silent_age (wc : wcfg) (w : world) (x : guev) : world :=
+  match x with
+  | GUFut f => if fb_tmo f then fst (fst (cstep wc w (UAge TMO_TICKS))) else w
+  | GU _ => w
+  end.
+
 Fixpoint run_groups_c (wc : wcfg) (w : world) (open : bool) (ok : bool) (outs : list out)
-         (reps : list (bool * list N)) (us : list guev) : list N :=
+         (reps : list (bool * list N * list (N * N))) (us : list guev) : list N :=
   match us with
   | [] => if open then flush_c wc w ok outs reps else []
   | x :: t =>
-      let u := res_u (w_st w) x in
-      let '(w1, o, f) := cstep wc w u in
+      let wa := silent_age wc w x in
+      let u := res_u (w_st wa) x in
+      let '(w1, o, f) := cstep wc wa u in
       if uev_tick u then run_groups_c wc w1 open ok outs reps t
       else if uev_serve u then run_groups_c wc w1 open (ok && f) (outs ++ o) reps t
       else (if open then flush_c wc w ok outs reps else []) ++
-           run_groups_c wc w1 true f o (opt_list (reply_of wc w u)) t
+           run_groups_c wc w1 true f o (opt_list (reply_of wc wa u)) t
   end.
 
 (* the peer labels of the case: every label with a key, but the local one *)
 Definition pool_of (k : case) : list N :=
   filter (fun p => negb (p =? g_local (k_g k))) (map fst (k_keys k)).
+(* the configuration the harness builds the node with, in ticks of 10 s: provider ttl 2500 s, record ttl
+   3000 s, refresh interval 1000 s, records of 4 bytes and more are refused, at most 6 records *)
+Definition C_PROVIDER_TTL : N := 250.
+Definition C_RECORD_TTL : N := 300.
+Definition C_REFRESH : N := 100.
+Definition C_MAX_RECORD_SIZE : N := 4.
+Definition C_MAX_RECORDS : N := 6.
 Definition wcfg_of (k : case) : wcfg :=
   mkWC (k_g k) (k_keys k) (pool_of k) 20
-       (V.C17.Model.mkCfg V.gen.Consts.DEFAULT_MAX_RECORDS V.gen.Consts.DEFAULT_MAX_RECORD_SIZE_BYTES
+       (V.C17.Model.mkCfg C_MAX_RECORDS C_MAX_RECORD_SIZE
                           V.gen.Consts.DEFAULT_MAX_PROVIDER_KEYS V.gen.Consts.DEFAULT_MAX_PROVIDER_ADDRESSES
-                          V.gen.Consts.DEFAULT_MAX_PROVIDERS_PER_KEY 1000000)
-       BIG (negb (N.testbit (k_mode k) 2)) (negb (N.testbit (k_mode k) 3)).
+                          V.gen.Consts.DEFAULT_MAX_PROVIDERS_PER_KEY C_PROVIDER_TTL)
+       C_RECORD_TTL (negb (N.testbit (k_mode k) 2)) (negb (N.testbit (k_mode k) 3)) C_REFRESH 0.
 
 (* the peers added to the routing table before the first event *)
 Definition world0 (k : case) : world :=
@@ -650,11 +704,18 @@ Definition prop_ok_u (es : list ev) (tm : list bool) (grs : list group) : bool :
 
 (* composed traces: the group carries the routing-table and store dumps after the glue dump *)
 Definition p_rt_row : parser unit := let* _ := pN in let* _ := plist p_triple in pret tt.
-Definition p_reply : parser unit := let* _ := pN in let* _ := plist pN in pret tt.
+Definition p_reply : parser unit := let* _ := pN in let* _ := plist pN in let* _ := plist p_pair in pret tt.
+Definition p_five : parser unit :=
+  let* _ := pN in let* _ := pN in let* _ := pN in let* _ := pN in let* _ := pN in pret tt.
+Definition p_four : parser unit :=
+  let* _ := pN in let* _ := pN in let* _ := pN in let* _ := pN in pret tt.
 Definition p_group_c : parser group :=
   let* ok := pBool in let* outs := plist p_out in let* d := p_dump in
-  let* _ := plist p_rt_row in let* _ := plist pN in
-  let* _ := plist pN in let* _ := pN in let* _ := plist p_reply in pret (mkGroup ok outs d).
+  let* _ := plist p_rt_row in
+  let* _ := plist p_five in
+  let* _ := plist (let* _ := pN in let* _ := plist p_four in pret tt) in
+  let* _ := plist p_pair in let* _ := pN in
+  let* _ := plist p_reply in pret (mkGroup ok outs d).
 Fixpoint p_groups_c (fuel : nat) : parser (list group) :=
   fun l =>
     match l with
@@ -681,19 +742,19 @@ Fixpoint skeletons (prov : list (N * quorum)) (us : list guev) : list ev :=
   | GU u :: t =>
       match u with
       | UCmd q UCFind _ => ECmd q CFindNode [] [] :: skeletons prov t
-      | UCmd q (UCPut qr _) _ => ECmd q (CPutRecord qr) [] [] :: skeletons prov t
+      | UCmd q (UCPut qr _ _ _) _ => ECmd q (CPutRecord qr) [] [] :: skeletons prov t
       | UCmd q (UCProv qr rk) _ => ECmd q (CStartProviding qr) [] [] :: skeletons (aset rk qr prov) t
       | UCmd q (UCGet qr _) _ => ECmd q (CGetRecord qr false) [] [] :: skeletons prov t
-      | UCmd q UCGetProv _ => ECmd q CGetProviders [] [] :: skeletons prov t
-      | UPutToPeers q qr _ ps => EPutToPeers q qr ps :: skeletons prov t
-      | UStoreRecord _ | UAddKnownPeer _ _ => ENop :: skeletons prov t
-      | UStopProviding rk => ENop :: skeletons (adel rk prov) t
-      | UFire q rk _ =>
+      | UCmd q (UCGetProv _) _ => ECmd q (CGetProviders []) [] [] :: skeletons prov t
+      | UPutToPeers q qr _ _ _ _ _ ps => EPutToPeers q qr ps :: skeletons prov t
+      | UStoreRecord _ _ _ _ | UAddKnownPeer _ _ | UAge _ => ENop :: skeletons prov t
+      | UStopProviding rk _ => ENop :: skeletons (adel rk prov) t
+      | UFire q rk _ _ =>
           match aget rk prov with
           | Some qr => ECmd q (CRefresh qr) [] []
           | None => ENop
           end :: skeletons prov t
-      | UInReq id rq => EFut id (RRead (msg_of_req rq)) :: skeletons prov t
+      | UInReq id rq => EFut id (RRead MPutValue) :: skeletons prov t
       | UEv e => e :: skeletons prov t
       end
   end.
@@ -705,7 +766,7 @@ Definition user_events (us : list guev) : list uev :=
 Definition named (us : list uev) (grs : list group) : bool :=
   let outs := flat_map gr_outs grs in
   forallb (fun u => match u with
-                    | UPutToPeers q _ _ given =>
+                    | UPutToPeers q _ _ _ _ _ _ given =>
                         match find_track q outs with
                         | Some targets => forallb (fun p => nmem p given) targets
                         | None => true
